@@ -224,6 +224,13 @@ inline const char* statusName(Status s) {
   return n[s];
 }
 
+// when set, integers decoded from the int 32 / int 64 formats carry the tag "signed-format" in MValue::s (a configuration
+// without 64-bit storage may answer null for a value >= 2^31 that arrived in a signed format)
+inline bool& tagSignedFormat() {
+  static bool on = false;
+  return on;
+}
+
 struct Decoder {
   const unsigned char* p;
   size_t n, pos = 0;
@@ -272,8 +279,8 @@ struct Decoder {
       case 0xcf: if (!need(8)) return Incomplete; m = MValue::integer(i128(rd(8))); return Ok;
       case 0xd0: if (!need(1)) return Incomplete; m = MValue::integer(i128(int8_t(rd(1)))); return Ok;
       case 0xd1: if (!need(2)) return Incomplete; m = MValue::integer(i128(int16_t(rd(2)))); return Ok;
-      case 0xd2: if (!need(4)) return Incomplete; m = MValue::integer(i128(int32_t(rd(4)))); return Ok;
-      case 0xd3: if (!need(8)) return Incomplete; m = MValue::integer(i128(int64_t(rd(8)))); return Ok;
+      case 0xd2: if (!need(4)) return Incomplete; m = MValue::integer(i128(int32_t(rd(4)))); if (tagSignedFormat()) m.s = "signed-format"; return Ok;
+      case 0xd3: if (!need(8)) return Incomplete; m = MValue::integer(i128(int64_t(rd(8)))); if (tagSignedFormat()) m.s = "signed-format"; return Ok;
       case 0xd4: case 0xd5: case 0xd6: case 0xd7: case 0xd8: what = E; len = size_t(1) << (c - 0xd4); break;
       case 0xd9: what = S; lb = 1; break;
       case 0xda: what = S; lb = 2; break;
